@@ -204,7 +204,7 @@ def add_params(ctx, rec, idx, fields, nvars=1, size=10, budget=None):
     dom = (whi - wlo + 1) + 2 + 2 + 2
     cost = (dom ** nvars) * size
     if budget is None:
-        budget = 60000 if ctx.quick() else 200000
+        budget = 60000 if ctx.quick() else 120000
     if cost > budget:
         return "expensive"
     rec["pp"] = {"wlo": wlo, "whi": whi, "lo": lo, "hi": hi, "minsyms": 1, "nbs": 1, "ext": ext}
